@@ -250,7 +250,20 @@ class Matcher:
                 yield env
             return
         if k == 'P:call':
-            if d[0] == 'call' and name_match(p[1], d[1]):
+            if d[0] != 'call':
+                return
+            if isinstance(p[1], tuple):          # (call $f ..): bind / compare the callee name
+                n = p[1][1]
+                if n in env:
+                    if env[n] != ('fn', d[1]):
+                        return
+                    yield from self.args(p[2:], d[2:], env)
+                else:
+                    e = dict(env)
+                    e[n] = ('fn', d[1])
+                    yield from self.args(p[2:], d[2:], e)
+                return
+            if name_match(p[1], d[1]):
                 yield from self.args(p[2:], d[2:], env)
             return
         if k == 'P:closure':
